@@ -1926,7 +1926,9 @@ func (h *fsHandler) openFSFile(filePath string, mustCompress bool, fileEncoding 
 		// Only re-create the compressed file if there was more than a second between the mod times.
 		// On macOS the gzip seems to truncate the nanoseconds in the mod time causing the original file
 		// to look newer than the gzipped file.
-		if fileInfoOriginal.ModTime().Sub(fileInfo.ModTime()) >= time.Second {
+		// The compressed file gets the mod time of the original when it is created, so a compressed
+		// file that is newer than the original is stale as well (the original has been replaced by an older one).
+		if d := fileInfoOriginal.ModTime().Sub(fileInfo.ModTime()); d >= time.Second || d <= -time.Second {
 			// The compressed file became stale. Re-create it.
 			_ = f.Close()
 			_ = os.Remove(filePath)
